@@ -60,6 +60,47 @@ pub trait Harness: Send + Sync {
   }
 }
 
+/// the same harness with some structural decisions pinned (one slice of its
+/// exploration; the slices of all pin values partition it)
+pub struct Pinned {
+  pub inner: Arc<dyn Harness>,
+  pub pins: Vec<(String, i64)>,
+}
+
+impl Harness for Pinned {
+  fn name(&self) -> String {
+    let p: Vec<String> = self.pins.iter().map(|(k, v)| format!("{}={}", k, v)).collect();
+    format!("{}@{}", self.inner.name(), p.join(","))
+  }
+  fn run(&self) -> Verdict {
+    sym::with(|c| {
+      for (k, v) in self.pins.iter() {
+        c.frozen.insert(k.clone(), *v);
+      }
+    });
+    self.inner.run()
+  }
+  fn judge_abnormal(&self, o: &Outcome, notes: &[String]) -> Option<(String, String)> {
+    self.inner.judge_abnormal(o, notes)
+  }
+  fn fuel(&self) -> i64 {
+    self.inner.fuel()
+  }
+}
+
+pub fn parse_pins(name: &str) -> (String, Vec<(String, i64)>) {
+  match name.split_once('@') {
+    Some((base, pins)) => {
+      let v = pins
+        .split(',')
+        .filter_map(|kv| kv.split_once('=').and_then(|(k, v)| v.parse().ok().map(|v| (k.to_string(), v))))
+        .collect();
+      (base.to_string(), v)
+    }
+    None => (name.to_string(), vec![]),
+  }
+}
+
 fn first_line(s: &str) -> String {
   s.lines().next().unwrap_or("").chars().take(80).collect()
 }
